@@ -10,7 +10,8 @@ from ..effects import EffectAnalysis
 from ..model import AnalysisError, unparse
 from ..normalize import expanded, single_assignments
 from ..report import RuleResult
-from ._c15_sem import dependency_table, layers, requires_table, silent_kinds
+from ._c15_sem import (dependency_table, group_switch_denials, layers, objects_of, pair_membership_sites, requires_table,
+                       shared_root, silent_kinds)
 from ._c15_sym import Executor, literal_elements
 
 
@@ -28,6 +29,11 @@ def entry_points(p):
         if m and m[1] == "method" and (m[2], K) not in out:
             out.append((m[2], K))
 
+    def addp(K, name):
+        m = K.lookup(name)
+        if m and m[1] == "prop" and m[2].getter is not None and (m[2].getter, K) not in out:
+            out.append((m[2].getter, K))
+
     IV = p.cls("InputValidation")
     for n in ("validate", "validate_data", "__call__"):
         add(IV, n)
@@ -43,6 +49,10 @@ def entry_points(p):
     for S in p.subclasses(p.cls("FormParameter")):
         add(S, "validate")
     add(p.cls("UIJson"), "validate")
+    # the properties that DERIVE the rules (what validate() will enforce) are functions of the current parameters / members
+    for S in p.subclasses(p.cls("Parameter")) + p.subclasses(p.cls("FormParameter")) + [p.cls("UIJson")]:
+        for n in ("validations", "dynamic_validations", "uijson_validations", "enforcers"):
+            addp(S, n)
     return out
 
 
@@ -328,10 +338,26 @@ def rule_commit(ctx) -> RuleResult:
     p = ctx.p
     mods = scope_modules(p)
 
+    def direct_validation(n, sn):
+        if not (isinstance(n, ast.Call) and isinstance(n.func, ast.Attribute) and n.func.attr in VALIDATION_CALLS):
+            return False
+        root = n.func.value
+        while isinstance(root, (ast.Attribute, ast.Subscript)):
+            root = root.value
+        return isinstance(root, ast.Name) and root.id == sn
+
+    # property setters that validate: assigning such a property (`self.data = ..`) is a fallible validation for the caller
+    validating = set()
+    for f in p.all_functions():
+        if f.module in mods and f.cls is not None and f.kind == "setter" and f.self_name:
+            if any(direct_validation(x, f.self_name) for x in ast.walk(ctx.view(f).node)):
+                validating.add((f.cls, f.prop or f.name))
+
     for fn0 in p.all_functions():
         if fn0.module not in mods or fn0.cls is None or fn0.self_name is None:
             continue
-        if not (fn0.kind == "setter" or fn0.name.startswith(("set_", "update_"))):
+        declared = fn0.kind == "setter" or fn0.name.startswith(("set_", "update_"))
+        if not declared and (fn0.kind not in ("getter", "method") or fn0.name.startswith("__")):
             continue
         # private helpers expanded in place: a validation or a store moved into / out of a helper is seen where it happens
         fn = ctx.view(fn0)
@@ -357,6 +383,9 @@ def rule_commit(ctx) -> RuleResult:
             return None
 
         def is_validation(n):
+            if isinstance(n, ast.Attribute) and isinstance(n.ctx, ast.Store) and isinstance(n.value, ast.Name) and n.value.id == sn:
+                m = fn.cls.lookup(n.attr)
+                return bool(m and m[1] == "prop" and (m[0], n.attr) in validating and m[2].setter is not fn0)
             if not (isinstance(n, ast.Call) and isinstance(n.func, ast.Attribute) and n.func.attr in VALIDATION_CALLS):
                 return False
             return on_self(n.func.value) is not None
@@ -376,6 +405,8 @@ def rule_commit(ctx) -> RuleResult:
                 for t in flat(n.targets if isinstance(n, ast.Assign) else [n.target]):
                     if isinstance(t, ast.Name):
                         continue  # re-binding a local
+                    if is_validation(t):
+                        continue  # assigning a validating property IS the validation (its setter is judged on its own)
                     fld = on_self(t)
                     if fld:
                         out.append((fld, n))
@@ -415,6 +446,40 @@ def rule_commit(ctx) -> RuleResult:
                     return True
             return st
 
+        def target_text(st):
+            t = st.targets[0] if isinstance(st, ast.Assign) else st.target
+            return unparse(expanded(t, fn.node, defs))
+
+        def restored(nd, st):
+            """The store is undone on every exceptional exit of the validations that follow it: each path from the exception edge of
+            such a validation to the exceptional exit passes another store to the same target (try / finally, except + re-raise)."""
+            tt = target_text(st)
+            fwd, work = set(), [nd]
+            while work:
+                x = work.pop()
+                for m, _ in x.succ:
+                    if m not in fwd:
+                        fwd.add(m)
+                        work.append(m)
+            for v in a_nodes:
+                if v not in fwd:
+                    continue
+                starts = [m for m, lab in v.succ if lab == "exc"]
+                if not starts:
+                    return False  # not protected: the exception leaves the function at once
+                seen, work = set(), list(starts)
+                while work:
+                    x = work.pop()
+                    if x in seen:
+                        continue
+                    seen.add(x)
+                    if x is g.rexit:
+                        return False
+                    if x.kind == "stmt" and any(target_text(s2) == tt for _, s2 in stores(x.ast)):
+                        continue  # re-stored on this path
+                    work += [m for m, _ in x.succ]
+            return True
+
         IN = forward(g, False, transfer, lambda a, b: a and b)
         bad = []
         for nd in g.nodes:
@@ -422,7 +487,8 @@ def rule_commit(ctx) -> RuleResult:
                 continue
             for fld, st in stores(nd.ast):
                 # validation inside the same statement after the store cannot happen (rhs evaluated first)
-                bad.append((fld, st))
+                if not restored(nd, st):
+                    bad.append((fld, st))
         inst = f"{fn.qualname}: {len(a_nodes)} validation call(s)"
         res.inst(inst, nontrivial=True, ok=not bad)
         for fld, st in bad:
@@ -515,6 +581,31 @@ def rule_rules(ctx) -> RuleResult:
                      f"the switches are no longer combined as documented — differs for {h.differs}")
     else:
         res.notes.append("requires_value: group / dependency deciders are not elementary calls here — only the `enabled` guard was decided")
+    # (d) the group switch: the requirement is denied only under a truthy VALUE of a groupOptional member
+    gv = uj.functions.get("group_requires_value")
+    if gv is None:
+        raise AnalysisError("anchor ui_json.utils.group_requires_value not found")
+    denials, gpaths, greads = group_switch_denials(ctx.view(gv, inline=False).node, resolver)
+    res.inst(f"group_requires_value: a group switches its members off only when the value of its `groupOptional` member is truthy "
+             f"({gpaths} paths, {greads} value read(s))", nontrivial=True, ok=not denials)
+    for line, members in denials[:1]:
+        res.find("utils", "group_requires_value", "the group can deny the requirement without a truthy `groupOptional` value", f"{uj.relpath}:{line}",
+                 "a group whose holder says `groupOptional: false` (or whose value is never read) is switched off by "
+                 f"{members or 'other conditions'}: None is accepted for the required members of a group box that is not optional")
+    # (e) object/data pairs: the membership of the data is tested against the children of ITS OWN parent
+    RE = p.cls("RequiredObjectDataEnforcer")
+    ms = [RE.lookup(nm)[2] for nm in ("rule", "enforce") if RE.lookup(nm) and RE.lookup(nm)[1] == "method"]
+    sites = pair_membership_sites(RE, ms)
+    if not sites:
+        raise AnalysisError("RequiredObjectDataEnforcer: no membership test per (parent, data) pair of self.validations found")
+    lost = sorted({ln for ln, used in sites if used != {0, 1}})
+    res.inst(f"RequiredObjectDataEnforcer: {len(sites)} membership test(s) per (parent, data) pair depend on both members of the pair",
+             nontrivial=True, ok=not lost)
+    if lost:
+        res.find("RequiredObjectDataEnforcer", "rule", "the membership test looks at one member of the (parent, data) pair only",
+                 f"{RE.module.relpath}:{lost[0]}",
+                 "the children the data is looked up in are not those of the pair's own parent (computed once for all pairs): a data selector is "
+                 "accepted as soon as its value is a child of any referenced object")
     # (b) AssociationValidator kinds
     V = p.cls("AssociationValidator")
     vf0 = V.methods.get("validate")
@@ -629,4 +720,63 @@ def rule_stale(ctx) -> RuleResult:
     return res
 
 
-RULES = [rule_pure, rule_commit, rule_rules, rule_stale]
+def rule_shared(ctx) -> RuleResult:
+    res = RuleResult(
+        "C15.SHARED",
+        "C15",
+        "inferring the validation rules of a form (InputValidation.infer_validations and the helpers it expands to) mutates no object in "
+        "place that may be a module-level or class-level mutable container: a hoisted table handed out by reference and then extended "
+        "(`types += [list]`) would make every later inference depend on the forms seen before",
+        floor=2,
+    )
+    p = ctx.p
+    IV = p.cls("InputValidation")
+    root = IV.methods.get("infer_validations")
+    if root is None:
+        raise AnalysisError("anchor InputValidation.infer_validations not found")
+    mod = root.module
+
+    def body(fi):
+        return ctx.view(fi, inline=False, consts=False).node
+
+    def usable(fi):
+        return fi.module is mod and not (fi.node.args.vararg or fi.node.args.kwarg) and \
+            not any(isinstance(x, (ast.Yield, ast.YieldFrom)) for x in ast.walk(fi.node))
+
+    def resolver(call):
+        f = call.func
+        if isinstance(f, ast.Name):
+            r = p.resolve_name(mod, f.id)
+            if r and r[0] == "func" and r[1] is not root and usable(r[1]):
+                return body(r[1])
+        elif isinstance(f, ast.Attribute) and isinstance(f.value, ast.Name):
+            r = p.resolve_name(mod, f.value.id)
+            K = r[1] if r and r[0] == "class" else IV if f.value.id in ("cls", "self") else None
+            m = K.lookup(f.attr) if K is not None else None
+            if m and m[1] == "method" and m[2] is not root and usable(m[2]):
+                return body(m[2]) if m[2].kind == "staticmethod" else (body(m[2]), f.value)
+        return None
+
+    node = body(root)
+    params = [a.arg for a in node.args.posonlyargs + node.args.args + node.args.kwonlyargs]
+    outs = Executor(resolver, max_depth=4).run(node)
+    sites: dict = {}
+    for oc in outs:
+        for kind, recv, _, stmt in oc.events:
+            if kind != "mutate" or stmt is None:
+                continue
+            rec = sites.setdefault(stmt.lineno, set())
+            for o in objects_of(recv):
+                nm = shared_root(p, mod, IV, o, params)
+                if nm:
+                    rec.add(nm)
+    for line, shared in sorted(sites.items()):
+        res.inst(f"rule inference, in-place mutation at {mod.relpath}:{line}: the mutated object is built by the inference itself", nontrivial=True, ok=not shared)
+        for nm in sorted(shared):
+            res.find("InputValidation", "infer_validations", f"mutates the shared container `{nm}` in place", f"{mod.relpath}:{line}",
+                     f"`{nm}` is created once (module / class level) and reaches this in-place mutation by reference: what one form adds (NoneType, list, ...) "
+                     "stays in the rules inferred for every later form — the verdict depends on earlier inference calls")
+    return res
+
+
+RULES = [rule_pure, rule_commit, rule_rules, rule_stale, rule_shared]
